@@ -328,6 +328,10 @@ func runProtoScenario(sc *protoScenario) (sum protoSummary) {
 		}
 	}
 	expected := sc.Tasks
+	if sc.Hint {
+		// the size hint caps the number of tasks per batch on both sides
+		expected = min(sc.Tasks, min(sc.Blocks, 63))
+	}
 	switch sc.Mode {
 	case "dfs":
 		prefix := sc.Prefix
